@@ -60,6 +60,16 @@ def resolve_fun(repo, d):
 def check_once(fn, contract, spec, args, extra_env=None):
     """Returns (status, detail). status: ok / pre_false / violation / raised_ok."""
     from .speclang import snapshot
+    import numpy as _np
+    if extra_env is None and 'cubic_uniform_splines' in args:
+        from . import gens as _g
+        extra_env = _g._spl_env(bool(args['cubic_uniform_splines']))
+    if extra_env is None:
+        for v in args.values():
+            if callable(v) and getattr(v, '__name__', '')[:3] in ('cu_', 'nu_'):
+                from . import gens as _g
+                extra_env = _g._spl_env(v.__name__.startswith('cu_'))
+                break
     env = dict(args)
     if extra_env:
         env.update(extra_env)
@@ -125,6 +135,8 @@ def main():
         extra = {}
         # pure repo functions usable inside clauses
         for k in contracts:
+            if '::' not in k:
+                continue
             rp, q = k.split('::')
             if contracts[k].get('pure') and '.' not in q:
                 try:
@@ -139,11 +151,14 @@ def main():
             g = getattr(gens, req['gen'])
             cases = (g(rng, req.get('tier', 'quick')) for _ in range(req.get('n', 100)))
         for args in cases:
+            extra_env = args.pop('__env__', None)
             for k, v in list(args.items()):
                 if isinstance(v, dict) and '__fun__' in v:
                     args[k] = resolve_fun(repo, v)
             saved = {k: to_json(v) for k, v in args.items()}
-            st, detail = check_once(fn, contract, spec, args)
+            if extra_env is None and req.get('env_family') is not None:
+                extra_env = gens._spl_env(bool(req['env_family']))
+            st, detail = check_once(fn, contract, spec, args, extra_env)
             out['evaluated'] += 1
             if st == 'violation':
                 if len(out['failures']) < 3:
